@@ -533,7 +533,7 @@ META = {
              'filter rejects on read-1 / qc-fail / duplicate / non-unique mp / MAPQ < threshold (threshold test enumerated), can only reject, and is '
              'called with read1_only=True and the caller\'s min_mq/dedup; reads are fetched from (max(0,start-M), min(end+M, contig size)). Does NOT '
              'decide equality of matrices across splits at runtime, nor reads whose record lies further than the margin from its site.'),
-    'technique': 'static analysis: exhaustive ordering enumeration of ownership / threshold predicates and fetch-window clamps, rounding-bound domain for the bin index, exactly-once path check; joint truth table of all filter atoms; interpretation of the batching statements on 0..12 commands x 1..4 threads',
+    'technique': 'static analysis: exhaustive ordering enumeration of ownership / threshold predicates and fetch-window clamps, rounding-bound domain for the bin index, exactly-once path check; joint truth table of all filter atoms; interpretation of the batching statements on 0..12 commands x 1..4 threads; effect check of the job functions on the command members shared between commands',
     'design_ref': 'DESIGN.md section 5, C12',
 }
 
